@@ -225,6 +225,50 @@ func init() {
 			a, b := e.sliceSeq(st, args[0].(*SliceV)), e.sliceSeq(st, args[1].(*SliceV))
 			return Scalar{T: e.nameQuant(st, e.seqEq(a, b)), Typ: boolTyp}
 		},
+		// generic helpers of package slices, instantiated for scalar element
+		// types (looked up without their type-argument suffix)
+		"slices.Equal": func(e *Exec, st *State, f *ssa.Function, args []Value, pos token.Pos) Value {
+			a, ok1 := args[0].(*SliceV)
+			b, ok2 := args[1].(*SliceV)
+			if !ok1 || !ok2 {
+				return Scalar{T: e.C.Fresh("slices_equal", smt.Bool), Typ: boolTyp}
+			}
+			if _, _, isInt := intInfo(a.Elem); !isInt {
+				return Scalar{T: e.C.Fresh("slices_equal", smt.Bool), Typ: boolTyp}
+			}
+			return Scalar{T: e.nameQuant(st, e.seqEq(e.sliceSeq(st, a), e.sliceSeq(st, b))), Typ: boolTyp}
+		},
+		"slices.Contains": func(e *Exec, st *State, f *ssa.Function, args []Value, pos token.Pos) Value {
+			c := e.C
+			a, ok1 := args[0].(*SliceV)
+			v, ok2 := args[1].(Scalar)
+			if !ok1 || !ok2 {
+				return Scalar{T: c.Fresh("slices_contains", smt.Bool), Typ: boolTyp}
+			}
+			sq := e.sliceSeq(st, a)
+			k := c.BoundVar("k", smt.BV(64))
+			ex := c.Exists([]*smt.Term{k}, c.And(c.BVSle(bv64(c, 0), k), c.BVSlt(k, sq.Len), c.Eq(sq.Read(k), v.T)))
+			return Scalar{T: e.nameQuant(st, ex), Typ: boolTyp}
+		},
+		"slices.Index": func(e *Exec, st *State, f *ssa.Function, args []Value, pos token.Pos) Value {
+			c := e.C
+			r := c.Fresh("slices_index", smt.BV(64))
+			a, ok1 := args[0].(*SliceV)
+			v, ok2 := args[1].(Scalar)
+			if ok1 && ok2 {
+				sq := e.sliceSeq(st, a)
+				z := bv64(c, 0)
+				j := c.BoundVar("j", smt.BV(64))
+				none := c.Forall([]*smt.Term{j}, c.Implies(c.And(c.BVSle(z, j), c.BVSlt(j, sq.Len)), c.Neq(sq.Read(j), v.T)))
+				j2 := c.BoundVar("j", smt.BV(64))
+				before := c.Forall([]*smt.Term{j2}, c.Implies(c.And(c.BVSle(z, j2), c.BVSlt(j2, r)), c.Neq(sq.Read(j2), v.T)))
+				e.addAxioms(c.Or(c.And(c.Eq(r, bv64(c, -1)), none),
+					c.And(c.BVSle(z, r), c.BVSlt(r, sq.Len), c.Eq(sq.Read(r), v.T), before)))
+			} else {
+				e.addAxioms(c.BVSle(bv64(c, -1), r))
+			}
+			return Scalar{T: r, Typ: intTyp}
+		},
 		"bytes.Compare": func(e *Exec, st *State, f *ssa.Function, args []Value, pos token.Pos) Value {
 			c := e.C
 			a, b := e.sliceSeq(st, args[0].(*SliceV)), e.sliceSeq(st, args[1].(*SliceV))
